@@ -124,8 +124,20 @@ def _schema(alg, **kw):
 PATHS = ["c", "sub.c", "sub.deep.c"]
 
 
-def _handwritten(fmt, p):
+def _handwritten(fmt, p, variant=None):
+    """a configuration file carrying the plaintext, written WITHOUT the library; `variant` selects another
+    spelling of the same (empty) string in the format's own syntax"""
     tree = {"name": "by-hand", "c": p, "sub": {"c": p, "deep": {"c": p}}}
+    if variant == "yaml-double-quoted":
+        assert p == ""
+        return b'name: by-hand\nc: ""\nsub:\n  c: ""\n  deep:\n    c: ""\n'
+    if variant == "xml-self-closing":
+        assert p == ""
+        return (b'<?xml version="1.0" ?><config type="dict"><name type="str">by-hand</name><c type="str"/>'
+                b'<sub type="dict"><c type="str"/><deep type="dict"><c type="str"/></deep></sub></config>')
+    if variant == "json-spaced":
+        assert p == ""
+        return b'{ "name" : "by-hand", "c" : "", "sub" : { "c" : "", "deep" : { "c" : "" } } }'
     if fmt == "json":
         return json.dumps(tree).encode()
     if fmt == "yaml":
@@ -226,8 +238,9 @@ def check_case(tmp, case):
             bad(O_LOAD, wk + "|resave", "tree after load differs from the tree saved")
     elif kind == "handwritten":
         schema = _schema(alg)
-        wk = "%s|%s" % (cls, fmt)
-        content = _handwritten(fmt, p)
+        variant = case.get("variant")
+        wk = "%s|%s%s" % (cls, fmt, "|" + variant if variant else "")
+        content = _handwritten(fmt, p, variant)
         with open(fname, "wb") as fp:
             fp.write(content)
         cfg = schema()
@@ -238,6 +251,10 @@ def check_case(tmp, case):
         salts = []
         for path in PATHS:
             v = cfg[path]
+            if v is None:
+                bad(O_HAND, wk + "|none", "%s: the hand-written plaintext %r was turned into None instead of being "
+                    "hashed" % (path, p))
+                continue
             if not _check_digest(bad, O_HAND, wk, alg, v, p, "%s loaded from plaintext" % path):
                 continue
             salts.append(v.salt)
@@ -317,14 +334,40 @@ def _secrets(rng, tier):
     return pool
 
 
-def _others(p, pool):
-    """distinct secrets to challenge with: neighbours of p and the rest of the pool"""
+NORM_BASES = [("accent", "caf\u00e9 cr\u00e8me"), ("ligature-fi", "\ufb01anc\u00e9"),
+              ("fullwidth", "\uff30\uff41\uff53\uff53\uff57\u00f6\uff52\uff44"), ("superscript", "x\u00b2+y\u00b3=\u00e9"),
+              ("ohm-angstrom", "\u2126 \u212b"), ("hangul", "\ube44\ubc00\ubc88\ud638"),
+              ("stacked-marks", "a\u0323\u0302 q\u0307\u0323")]
+FORMS = ["NFC", "NFD", "NFKC", "NFKD"]
+
+
+def _norm_secrets():
+    """(name, secret, variants): every distinct spelling (as given, NFC, NFD, NFKC, NFKD) of each base string is a
+    secret of its own; its variants are the OTHER spellings, which are different code point sequences and therefore
+    different secrets"""
+    import unicodedata
+    out = []
+    for bname, base in NORM_BASES:
+        spell = {"raw": base}
+        for f in FORMS:
+            spell[f] = unicodedata.normalize(f, base)
+        seen = {}
+        for form, text in spell.items():
+            seen.setdefault(text, form)
+        assert len(seen) >= 2, bname
+        for text, form in seen.items():
+            out.append(("str-norm-%s-%s" % (bname, form), text, [t for t in seen if t != text]))
+    return out
+
+
+def _others(p, pool, first=()):
+    """distinct secrets to challenge with: given variants first, then neighbours of p and the rest of the pool"""
     if isinstance(p, str):
         near = [p + "x", p[:-1], p.swapcase(), p + "\x00", " " + p, p + p, p.encode("utf-8") + b"\x00", ""]
     else:
         near = [p + b"x", p[:-1], p + b"\x00", b"\x00" + p, p + p, bytes(b ^ 1 for b in p), b"", ""]
     out, seen = [], {_b(p)}
-    for q in near + [s for _, s in pool if len(s) < 64]:
+    for q in list(first) + near + [s for _, s in pool if len(s) < 64]:
         if _b(q) not in seen:
             seen.add(_b(q))
             out.append(q)
@@ -333,9 +376,15 @@ def _others(p, pool):
 
 def gen_cases(rng, tier):
     pool = _secrets(rng, tier)
+    norm = _norm_secrets()
+    variants = {name: v for name, _, v in norm}
+    pool = pool + [(name, text) for name, text, _ in norm]
     for alg in ALGS:
+        for variant, fmt in (("yaml-double-quoted", "yaml"), ("xml-self-closing", "xml"), ("json-spaced", "json")):
+            yield {"kind": "handwritten", "alg": alg, "secret": _enc(""), "others": [_enc("x"), _enc(" "), _enc(b"\x00")],
+                   "fmt": fmt, "class": "str-empty", "variant": variant}
         for name, p in pool:
-            others = [_enc(q) for q in _others(p, pool)]
+            others = [_enc(q) for q in _others(p, pool, variants.get(name, ()))]
             for fmt in FORMATS:
                 yield {"kind": "assign", "alg": alg, "secret": _enc(p), "others": others, "fmt": fmt, "class": name}
             if isinstance(p, str):
@@ -356,9 +405,12 @@ def rac(tier: str, seed: int) -> dict:
                    "plaintext file, default (plaintext / DigestValue); each evaluates the clauses at the root and in "
                    "sub-configurations of depth 1 and 2 and challenges with ~25 different secrets",
                    bound="6 algorithms x %d secrets (str: empty, 1 char, ascii, unicode, 2480 chars, with ':', "
-                   "base64 look-alike, spaces, NUL; bytes: empty, NUL, ascii, non-UTF-8, 3072 bytes; seeded random) "
-                   "x 5 formats; hand-written files for every str secret x 5 formats built without the library (no NUL in XML); absence "
-                   "clauses evaluated for secrets >= 6 bytes" % (18 if tier == "quick" else 38),
+                   "base64 look-alike, spaces, NUL; 7 base strings (combining accents, U+FB01 ligature, full-width letters, "
+                   "superscript digits, Ohm/Angstrom signs, Hangul, stacked marks) in each distinct spelling raw/NFC/"
+                   "NFD/NFKC/NFKD, challenged with all other spellings; bytes: empty, NUL, ascii, non-UTF-8, 3072 bytes; seeded random) "
+                   "x 5 formats; hand-written files for every str secret x 5 formats built without the library (no NUL in XML), the empty "
+                   "string also as yaml \"\", xml self-closing element and spaced json; absence "
+                   "clauses evaluated for secrets >= 6 bytes" % ((18 if tier == "quick" else 38) + len(_norm_secrets())),
                    tier=tier, seed=seed)
     with sandbox() as tmp:
         n = 0
@@ -368,7 +420,8 @@ def rac(tier: str, seed: int) -> dict:
             n += 1
             fs = check_case(tmp, case)
             small = len(case["secret"]["v"]) < 80
-            rec.case(key=(case["kind"], case["alg"], case["class"], case.get("fmt") or case.get("as")),
+            rec.case(key=(case["kind"], case["alg"], case["class"], case.get("fmt") or case.get("as"),
+                          case.get("variant")),
                      nontrivial=True,
                      sample=dict(case, others=case["others"][:3]) if small and n % 173 == 1 else None)
             for obl, wk, what in fs:
